@@ -589,6 +589,44 @@ def cli_stage(chk, exe, pid):
         chk.add_violation("native-cli", f, why, True)
 
 
+REL_TOKENS = {"LDAP", "LDAI", "LDBI", "STAI", "BR", "BRZ", "BRN"}
+ABS_TOKENS = {"LDAM", "LDBM", "STAM", "LDAC", "LDBC"}
+
+
+def construction_sites(chk, pid):
+    """every place in xcmp.hpp / hexasm.hpp that creates a label-reference directive passes the addressing form that the
+    property assigns to the mnemonic (relative for BR/BRZ/BRN/LDAP and the indexed forms, absolute for LDAM/LDBM/STAM/LDAC/
+    LDBC).  The layout lemmas take the form from the directive's flag; this ties the flag to the mnemonic at its source."""
+    sites, bad = [], []
+    for fn in ("xcmp.hpp", "hexasm.hpp"):
+        src = hv.strip_comments(open(os.path.join(hv.REPO, fn)).read())
+        for m in re.finditer(r"make_unique<(?:hexasm::)?InstrLabel>\(([^;]*?)\)\s*\)?\s*;", src):
+            args = [a.strip() for a in m.group(1).split(",")]
+            flag = args[-1]
+            toks = re.findall(r"Token::(\w+)", m.group(1))
+            line = src.count("\n", 0, m.start()) + 1
+            if toks:
+                tok = toks[0]
+                want = "true" if tok in REL_TOKENS else "false" if tok in ABS_TOKENS else None
+                sites.append({"file": fn, "line": line, "token": tok, "relative": flag})
+                if want is None or flag not in ("true", "false") or flag != want:
+                    bad.append("%s:%d creates %s with relative=%s" % (fn, line, tok, flag))
+            else:
+                # the assembler's parser: the mnemonic is the case label the statement sits under
+                pre = src[:m.start()]
+                k = pre.rfind("auto opcode = lexer.getLastToken();")
+                labels = re.findall(r"case Token::(\w+):", pre[pre.rfind(";", 0, k) + 1:k]) if k > 0 else []   # the run of case labels directly in front
+                sites.append({"file": fn, "line": line, "tokens": labels, "relative": flag})
+                for tok in labels:
+                    want = "true" if tok in REL_TOKENS else "false" if tok in ABS_TOKENS else None
+                    if want is None or flag != want:
+                        bad.append("%s:%d creates %s with relative=%s" % (fn, line, tok, flag))
+    chk.extra["label_reference_construction_sites"] = {"sites": len(sites), "mismatches": bad}
+    if len(sites) < 10:
+        raise hv.ExtractionError("construction sites of InstrLabel: found only %d (expected the 9 gen* functions of xcmp and the 2 parser sites)" % len(sites))
+    return bad
+
+
 def xcmp_cli_stage(chk, exe, pid):
     """a reader's check of `xcmp -S` listings against the binaries xcmp writes, for the X programs shipped in tests/x (the
     compiler builds its directive objects directly, not through the assembler's parser), and of `hexasm --instrs` for
@@ -602,7 +640,18 @@ def xcmp_cli_stage(chk, exe, pid):
     d = os.path.join(chk.out, "scratch", "xcli")
     os.makedirs(d, exist_ok=True)
     n, items, why, bad = 0, 0, "", None
-    for f in sorted(glob.glob(os.path.join(hv.REPO, "tests", "x", "*.x"))) + sorted(glob.glob(os.path.join(hv.REPO, "tests", "asm", "*.S"))):
+    # a few X sources of our own: every way xcmp creates a label reference (globals, constant pool, strings loaded into
+    # either register, arrays, calls in both directions, conditionals)
+    own = {
+        "refs1.x": "val put = 1;\nvar g;\narray a[3];\nfunc f(val x) is return x + 70000\nproc p(val s) is put(s, 0)\n"
+                   "proc main() is { g := f(3); a[1] := g; if g < 3 then p(\"yes\") else p(\"no\"); while g < 70010 do g := g + 1; 0(a[1] - g) }\n",
+        "refs2.x": "var v;\nproc main() is { v := 0; 0(v + \"abc\") }\n",
+        "refs3.x": "var v;\nproc main() is { v := 0; 0(\"abc\" + v) }\n",
+        "refs4.x": "var v;\nproc main() is { v := 100000; 0((v - 99999) + (\"x\" - \"x\")) }\n",
+    }
+    for name, text in own.items():
+        open(os.path.join(d, name), "w").write(text)
+    for f in [os.path.join(d, k) for k in sorted(own)] + sorted(glob.glob(os.path.join(hv.REPO, "tests", "x", "*.x"))) + sorted(glob.glob(os.path.join(hv.REPO, "tests", "asm", "*.S"))):
         tool = xcmp if f.endswith(".x") else hexasm
         try:
             os.remove(os.path.join(d, "a.out"))
@@ -628,6 +677,16 @@ def xcmp_cli_stage(chk, exe, pid):
                        "programs": n, "listed_items_checked": items, "ok": not why, "why": why})
     if n < 10:
         raise hv.Infra("only %d shipped programs could be compiled for the listing check" % n)
+    try:
+        sites_bad = construction_sites(chk, pid)
+    except hv.ExtractionError as ex:
+        sites_bad = []
+        chk.undecided.append("construction sites: %s" % ex)
+    if sites_bad:
+        p = os.path.join(hv.OUTROOT, "replay", "%s-construction-sites.txt" % pid)
+        open(p, "w").write("\n".join(sites_bad) + "\n" + (why or "") + "\n")
+        if pid == "C05":
+            chk.add_violation("construction-sites", p, "label reference created with the wrong addressing form: %s%s" % ("; ".join(sites_bad[:3]), ("; real xcmp: " + why) if why else ""), bool(why))
     if why and not chk.violations:
         p = os.path.join(hv.OUTROOT, "replay", "%s-native-listing.txt" % pid)
         open(p, "w").write("%s\n%s\n" % (bad, why))
